@@ -251,6 +251,15 @@ func throughCycle(cfg *ucfg.Config, k string, opts []ucfg.Option, r *runlog.R) e
 		}
 		return vx.Typed(what, err)
 	}
+	if !strings.Contains(k, ".") {
+		var cerr error
+		if e := uc.Safe("CountField", func() error { _, cerr = cfg.CountField(k, opts...); return nil }); e != nil {
+			return e
+		}
+		if err := check(fmt.Sprintf("CountField(%q)", k), cerr); err != nil {
+			return err
+		}
+	}
 	for _, p := range []string{k + ".zz", k + ".zz.y", k + ".1"} {
 		var e1, e2, e3, e4, e5 error
 		if e := uc.Safe("reads through a cyclic reference", func() error {
@@ -316,6 +325,31 @@ func moreReads(cfg *ucfg.Config, k string, want interface{}, opts []ucfg.Option,
 		}
 		if e := noCycle(fmt.Sprintf("Child(%q, %d)", k, idx), err); e != nil {
 			return e
+		}
+	}
+	// CountField evaluates the setting as far as its length requires: a list has as many elements as the model's
+	// list, an object or a primitive counts 1, null counts 0 (top-level names only: CountField takes plain names)
+	if !strings.Contains(k, ".") {
+		wantN := 1
+		switch x := want.(type) {
+		case nil:
+			wantN = 0
+		case []interface{}:
+			wantN = len(x)
+		}
+		var n int
+		var cerr error
+		if e := uc.Safe("CountField", func() error { n, cerr = cfg.CountField(k, opts...); return nil }); e != nil {
+			return e
+		}
+		if e := noCycle(fmt.Sprintf("CountField(%q)", k), cerr); e != nil {
+			return e
+		}
+		if cerr != nil {
+			return fmt.Errorf("field %q evaluates to %s, but CountField failed: %v", k, canon.Show(want), cerr)
+		}
+		if n != wantN {
+			return fmt.Errorf("field %q evaluates to %s, but CountField = %d, want %d", k, canon.Show(want), n, wantN)
 		}
 	}
 	switch x := want.(type) {
